@@ -132,6 +132,9 @@ class Reader:
         self.max_depth = max_depth
         self.read_fields = set()
         self.field_types = {}
+        self.atoms = set()        # names of locals kept as atoms (their definitions are recorded, not substituted)
+        self.atom_defs = {}       # name -> defining expression (in terms of earlier atoms)
+        self.atom_order = []
 
     # -- entry ---------------------------------------------------------
     def run(self, fn, args=None, this=('this',), state=None, depth=0):
@@ -296,6 +299,11 @@ class Reader:
                 return [st]
         out = []
         for (val, s2) in self.ev(init, st, ctx):
+            if v['name'] in self.atoms and isinstance(val, sp.Basic):
+                if v['name'] not in self.atom_defs:
+                    self.atom_order.append(v['name'])
+                self.atom_defs[v['name']] = val
+                val = sp.Symbol(v['name'], real=True)
             s2.locals[v['id']] = val
             out.append(s2)
         return out
@@ -344,6 +352,12 @@ class Reader:
                 return [(self.get_field(lv[1], st, e['t']), st)]
             if lv and lv[0] == 'local':
                 return [(st.locals.get(lv[1], Opaque(pp(e))), st)]
+            nm = _struct_member_name(e)
+            if nm is not None:
+                key = ('struct', nm)
+                if key not in st.fields:
+                    st.fields[key] = self.symbol(nm, e['t'])
+                return [(st.fields[key], st)]
             out = []
             for (b, s2) in self.ev(e['base'], st, ctx):
                 out.append((self.member_of_value(b, e), s2))
@@ -371,6 +385,8 @@ class Reader:
             return self.call(e, st, ctx)
         if k == 'ValueInit':
             return [(sp.Integer(0), st)]
+        if k == 'InitList':
+            return [(tuple(vals), s2) for (vals, s2) in self.evs(e['args'], st, ctx)]
         return [(Opaque(pp(e)), st)]
 
     def member_of_value(self, b, e):
@@ -543,7 +559,7 @@ class Reader:
             if len(args) == 1 and e['t'].get('c') in ('int', 'fp'):
                 return self.ev(args[0], st, ctx)
         # math library
-        base = fq.split('::')[-1]
+        base = fq.split('<')[0].split('::')[-1]
         if k == 'Call' and (fq.startswith('std::') or '::' not in fq) and base in MATH_FUNCS and not e.get('inrepo'):
             out = []
             for (vals, s2) in self.evs(args, st, ctx):
@@ -645,7 +661,8 @@ class Reader:
         for (vals, s2) in self.evs(allargs, st, ctx):
             sv = [v for v in vals]
             if all(isinstance(v, sp.Basic) for v in sv) and sv:
-                out.append((sp.Function(short_fn(fq) or name)(*sv), s2))
+                fname = (e.get('m') if k == 'MCall' and not e.get('inrepo') else None) or short_fn(fq) or name
+                out.append((sp.Function(fname)(*sv), s2))
             else:
                 out.append((Opaque(pp(e)), s2))
         return out
@@ -696,6 +713,18 @@ class Reader:
             else:
                 raise Unsupported('container method %s at %s' % (name, e.get('loc')))
         return out
+
+
+def _struct_member_name(e):
+    """'param.field.sub' for a member chain rooted at a parameter / local of struct type (plain data), else None."""
+    parts = []
+    x = e
+    while x is not None and x.get('k') == 'Member' and x.get('field'):
+        parts.append(x['name'])
+        x = strip_casts(x['base'])
+    if x is not None and x.get('k') == 'Ref' and x.get('rk') in ('param', 'local'):
+        return '.'.join([x['name']] + parts[::-1])
+    return None
 
 
 def _truth(c):
